@@ -316,7 +316,13 @@ def literals(ctx):
         ctx.inst("R08.2", "literal:%s" % op, ok, arm["sp"] if arm else f["span"], "`%s` must %s and report %d tokens: %s" % (op, what, 4 if op.startswith("const") else 3, shown), sample=shown)
     g = ctx.fn("patronus", P + "parse_ones")
     txt = show(g["body"])
-    ok = "BitVecValue::ones(width)" in txt and "bv_lit" in txt and any(callee(x) == P + "get_bv_width" and tok_index(x["args"][1]) == 2 for x in walk(g["body"]) if x.get("k") == "mcall")
+    ok = False
+    for x in walk(g["body"]):
+        if x.get("k") == "mcall" and callee(x) == builders.CTX + "::bv_lit" and x.get("args"):
+            v = strip_try(resolve(strip_try(x["args"][0])))
+            if v.get("k") == "call" and (callee(v) or "").endswith("BitVecValue::ones") and len(v["args"]) == 1:
+                w = strip_try(resolve(strip_try(v["args"][0])))
+                ok = w.get("k") == "mcall" and callee(w) == P + "get_bv_width" and tok_index(w["args"][1]) == 2
     ctx.inst("R08.2", "literal:ones", ok, g["span"], "`ones` must build the all-ones literal of the declared width: %s" % txt[:160])
     h = ctx.fn("patronus", P + "parse_bv_lit_str")
     HP = {name: i for p in h["params"] for name, i in pat_bindings(p)}
